@@ -152,6 +152,20 @@ def path_ranges(fn: ast.FunctionDef):
     return out
 
 
+def path_bounds(fn: ast.FunctionDef):
+    """every assignment to the name the path loops are bounded by (`max_path_length = max(nrow, ncol)`), and the
+    unpacking that defines its operands (`ncol, nrow = disp.shape`), as normalised source text in source order"""
+    out = []
+    for node in ast.walk(fn):
+        if isinstance(node, (ast.Assign, ast.AugAssign, ast.AnnAssign)):
+            targets = node.targets if isinstance(node, ast.Assign) else [node.target]
+            names = {n.id for t in targets for n in ast.walk(t) if isinstance(n, ast.Name)}
+            if "max_path_length" in names:
+                out.append((node.lineno, ast.unparse(node).replace(" ", "")))
+    out.sort()
+    return [t for (_l, t) in out]
+
+
 def pass_order(cls: ast.ClassDef):
     """the kernels called by `interpolated_disparity`, in order, and whether mask_border follows"""
     fn = find_method(cls, "interpolated_disparity")
@@ -172,7 +186,7 @@ def pass_order(cls: ast.ClassDef):
 
 def extract():
     mod = parse(SRC)
-    data = {"dirs": {}, "ops": {}, "tested": {}, "ranges": {}, "order": {}, "guards": {}}
+    data = {"dirs": {}, "ops": {}, "tested": {}, "ranges": {}, "order": {}, "guards": {}, "bounds": {}}
     for cls_name, fn_name in KERNELS:
         cls = find_class(mod, cls_name)
         fn = find_method(cls, fn_name)
@@ -182,6 +196,7 @@ def extract():
         data["ops"][fn_name] = flag_ops(fn)
         data["tested"][fn_name] = tested(fn)
         data["ranges"][fn_name] = path_ranges(fn)
+        data["bounds"][fn_name] = path_bounds(fn)
         data["guards"][fn_name] = guards(fn)
         if fn_name == "interpolate_mismatch_mc_cnn":
             data["acc_init"] = acc_init(fn)
@@ -194,6 +209,7 @@ def extract():
     fvn = find_function(parse(SRC2), "find_valid_neighbors")
     data["tested"]["find_valid_neighbors"] = tested(fvn)
     data["ranges"]["find_valid_neighbors"] = path_ranges(fvn)
+    data["bounds"]["find_valid_neighbors"] = path_bounds(fvn)
     return data
 
 
@@ -239,6 +255,11 @@ def render(data) -> str:
     lines.append(",\n".join(
         f"  ({lean_str(fn)}, {lean_list([lean_list([lean_str(a) for a in args]) for args in rngs])})"
         for fn, rngs in data["ranges"].items()))
+    lines.append("]")
+    lines.append("")
+    lines.append("/-- per function: every assignment to `max_path_length`, the bound of the path loops -/")
+    lines.append("def pathBounds : List (String × List String) := [")
+    lines.append(",\n".join(f"  ({lean_str(fn)}, {lean_list([lean_str(n) for n in b])})" for fn, b in data["bounds"].items()))
     lines.append("]")
     lines.append("")
     lines.append("/-- the operator with which a kernel raises the new bit: \"+\" (`+=`) or \"|\" (`|=`) -/")
